@@ -32,7 +32,11 @@ var (
 	Dual2 = &sim.Kind{Group: "dual.ex", Version: "v2", Resource: "duals", Kind: "Dual", Namespaced: true, StoreKey: "dual.ex|duals@v2"}
 	// PlainThing: a parent kind for which the server keeps no metadata.generation (like several built-in kinds)
 	PlainThing = &sim.Kind{Group: "ex.io", Version: "v1", Resource: "plainthings", Kind: "PlainThing", Namespaced: true, StatusSub: true, NoGeneration: true}
-	Kinds      = []*sim.Kind{ThingBeta, NoThingBeta, Thing, NoThing, CThing, Leaf, Widget, CWidget, Other, Gadget, PlainThing}
+	// CoreWidget: a second resource with the SAME Kind and the SAME plural name as Widget, in the core group
+	// (like v1 Service and serving.knative.dev/v1 Service): whatever identifies a child type by its kind alone,
+	// or treats the empty group as "any group", confuses the two
+	CoreWidget = &sim.Kind{Group: "", Version: "v1", Resource: "widgets", Kind: "Widget", Namespaced: true, StatusSub: true}
+	Kinds      = []*sim.Kind{ThingBeta, NoThingBeta, Thing, NoThing, CThing, Leaf, Widget, CWidget, Other, Gadget, PlainThing, CoreWidget}
 )
 
 const LastApplied = "metacontroller.k8s.io/last-applied-configuration"
